@@ -37,6 +37,17 @@ def specs(ctx):
                     "pseed": int(rng.integers(1 << 30)), "box_kinds": ["box", "box", "lo", "up"], "box_spread": 0.3,
                     "start": ["interior", "face"][i % 2], "cb": "never", "jac": "callable",
                     "kwargs": {"maxcor": int(rng.choice([1, 3, 10])), "ftol": 0.0, "maxiter": 25, "maxfun": 400, "maxls": 20}})
+    # restarts from a checkpoint in every gradient mode, in tight boxes (the restarted leg differences at iterates that
+    # touch or graze a bound)
+    for i in range(ctx.pick(300, 3000)):
+        jac = ["none", "2-point", "3-point", "cs", "callable"][i % 5]
+        out.append({"family": (["qp", "qp4", "qpcos"] if jac == "cs" else ["qp", "qp4", "rosenbrock", "qpsoft"])[i % 3 if jac == "cs" else i % 4],
+                    "n": int(rng.integers(2, 7)), "pseed": int(rng.integers(1 << 30)),
+                    "box_kinds": ["box", "box", "lo", "up"], "box_spread": [0.3, 1.0][i % 2],
+                    "start": ["interior", "face", "vertex"][i % 3], "cb": "never", "jac": jac,
+                    "kwargs": {"maxcor": int(rng.choice([1, 3, 10])), "ftol": 0.0, "maxiter": int(rng.integers(1, 5)),
+                               "maxfun": 2000, "maxls": 20},
+                    "chain": [{"maxiter": int(rng.integers(5, 12))}, {"maxiter": 20}][: 1 + i % 2]})
     return out
 
 
